@@ -191,9 +191,11 @@ func parallelLeg(ctx *kernel.BatchContext) []kernel.Violation {
 	var viols []kernel.Violation
 	switch {
 	case strings.Contains(stderr, "WARNING: DATA RACE"):
-		frames := raceFrame.FindAllString(stderr, -1)
+		// a race counts only if one of the two conflicting accesses is made by xjs code itself
+		// (first non-runtime frame of an access stack inside github.com/xjslang/xjs, the simhook shim excepted)
+		frames := racingXjsFrames(stderr)
 		if len(frames) == 0 {
-			ctx.Infra = append(ctx.Infra, "parallel leg: data race reported outside xjs (harness):\n"+tailStr(stderr, 3000))
+			ctx.Infra = append(ctx.Infra, "parallel leg: data race reported between harness accesses, not in xjs:\n"+tailStr(stderr, 3000))
 			return nil
 		}
 		viols = append(viols, kernel.Violation{Property: "C14", Kind: "data-race", Signature: "data-race|" + frames[0],
@@ -230,4 +232,31 @@ func firstN(s string, n int) string {
 		return s[:n] + "…"
 	}
 	return s
+}
+
+var accessHeader = regexp.MustCompile(`^(Read|Write|Previous read|Previous write|Atomic read|Atomic write|Previous atomic read|Previous atomic write) at 0x`)
+
+// racingXjsFrames returns, for every access stack of a race report, the accessing function when it belongs to xjs.
+func racingXjsFrames(report string) []string {
+	var out []string
+	lines := strings.Split(report, "\n")
+	for i := 0; i < len(lines); i++ {
+		if !accessHeader.MatchString(strings.TrimSpace(lines[i])) {
+			continue
+		}
+		for j := i + 1; j < len(lines); j++ {
+			f := strings.TrimSpace(lines[j])
+			if f == "" {
+				break
+			}
+			if strings.HasPrefix(f, "/") || strings.HasPrefix(f, "runtime.") || strings.HasPrefix(f, "sync/atomic.") || strings.HasPrefix(f, "sync.") {
+				continue // file:line lines and runtime frames
+			}
+			if strings.HasPrefix(f, "github.com/xjslang/xjs/") && !strings.HasPrefix(f, "github.com/xjslang/xjs/simhook.") {
+				out = append(out, raceFrame.FindString(f))
+			}
+			break
+		}
+	}
+	return out
 }
